@@ -12,7 +12,7 @@ Record row := {
 
 Definition key_types_name : pstr := s "key_types".
 
-(* node.format() *)
+(* Node.format() and its overrides in JsonNode / BytesNode / BytearrayNode *)
 Definition node_format (h : hdr) : res pstr :=
   match h_kind h with
   | KJson =>
@@ -27,6 +27,14 @@ Definition node_format (h : hdr) : res pstr :=
       | Some m, Some c => Ok (qual m c)
       | _, _ => Raise EDomain
       end
+  end.
+
+(* format() as the node's own class implements it: the protocol-0 FunctionNode (D31-FunctionNode@0 repaired) shows the
+   name it audits, _get_function_name() (KeyError / TypeError of a malformed content included) *)
+Definition format_of (h : hdr) (subs : list node) : res pstr :=
+  match h_kind h with
+  | KFunctionV0 => function_name h subs
+  | _ => node_format h
   end.
 
 Definition is_skipped (E : env) (skipped : list pstr) (h : hdr) : bool :=
@@ -110,8 +118,8 @@ Section Walk.
             | None => s_err EOther
             end
         | Node h subs =>
-            s_lift (node_format h) (fun val =>
-            s_lift (self_safe E T h) (fun ss =>
+            s_lift (format_of h subs) (fun val =>
+            s_lift (self_safe_of E T h subs) (fun ss =>
             s_lift (match h_kind h with KJson => Ok [] | _ => unsafe E T root n end) (fun u =>
             let r := {| r_level := level; r_key := name; r_val := val; r_self_safe := ss;
                         r_safe := match u with [] => true | _ => false end; r_last := is_last |} in
